@@ -247,3 +247,57 @@ let () =
             (int_of_nat r.r_config) (int_of_nat r.r_isomer) (int_of_nat r.r_lactole) (implode r.r_smiles) in
         String.concat "\x1f" (List.map (row "p") pyranoses @ List.map (row "f") furanoses @ List.map (row "o") opens)
     | _ -> "BADARGS")
+
+let () =
+  register "fgtokens" (function
+    | [] -> String.concat "\x1f" (List.map (fun (k, v) -> implode k ^ "\x1e" ^ implode v) functional_groups)
+    | _ -> "BADARGS")
+
+let () =
+  register "gate" (function [s] -> escape (implode (gate (explode s))) | _ -> "BADARGS")
+
+(* ------------------------------------------------------------------ glycan-level spec (C01 family) *)
+let rec rgtree r : gtree option =
+  let smi = unhex (until_semi r) in
+  let n = int_of_string (until_semi r) in
+  let m = sem_str (explode smi) in
+  let rec kids k acc = if k = 0 then Some (List.rev acc) else begin
+      let ppos = int_of_string (until_semi r) in
+      match rgtree r with
+      | Some t -> kids (k - 1) ((nat_of_int ppos, t) :: acc)
+      | None -> (ignore (kids_skip (k - 1)); None) end
+  and kids_skip k = if k = 0 then () else begin ignore (until_semi r); ignore (rgtree r); kids_skip (k - 1) end in
+  let ks = kids n [] in
+  match m, ks with
+  | Some m, Some ks -> Some (GT (m, ks))
+  | _, _ -> None
+
+let () =
+  register "denotes" (function
+    | [out; tree] ->
+        (match sem_str (explode out), rgtree { s = tree; i = 0 } with
+         | Some o, Some t ->
+             (match denotes o (strip_tree t) with
+              | Some true -> "1" | Some false -> "0" | None -> "NOSPEC")
+         | None, _ -> "ERR-out"
+         | _, None -> "ERR-tree")
+    | _ -> "BADARGS")
+
+(* ------------------------------------------------------------------ merger model (string level) *)
+let sres_str = function MOk s -> "OK\t" ^ escape (implode s) | MRaise -> "RAISE\t"
+let () =
+  register "relabel" (function [s; off] -> escape (implode (relabel (explode s) (nat_of_int (int_of_string off)))) | _ -> "BADARGS");
+  register "sanitize" (function [s] -> sres_str (sanitize (explode s)) | _ -> "BADARGS");
+  register "mergechildren" (function
+    | me :: children ->
+        let pairs = List.map (fun (((_, o), _), ((_, n), _)) -> (o, n)) dummy_atoms in
+        sres_str (merge_children (explode me) pairs (List.map explode children))
+    | _ -> "BADARGS")
+
+let () =
+  register "specmol" (function
+    | [tree] ->
+        (match rgtree { s = tree; i = 0 } with
+         | Some t -> (match glycan_mol false (strip_tree t) with Some m -> "1" | None -> "NOSPEC")
+         | None -> "ERR-tree")
+    | _ -> "BADARGS")
